@@ -24,7 +24,20 @@ KWAGRS_TEMPLATE = "{% for key, value in kwargs.items() %}" \
 keywords_set = set(keyword.kwlist)
 builtins_set = set(__builtins__.keys())
 other_common_names_set = {'datetime', 'time', 'date', 'defaultdict', 'schema'}
-blacklist_words = frozenset(keywords_set | builtins_set | other_common_names_set)
+# Names that generated modules import: a class or a field with one of these names would shadow the import
+generated_imports_set = {
+    'Any', 'Dict', 'List', 'Literal', 'Optional', 'Tuple', 'Union',
+    'BaseModel', 'Field', 'SQLModel', 'attr', 'optional', 'dataclass', 'field', 'ClassType', 'convert_strings',
+    'IntString', 'FloatString', 'BooleanString', 'IsoDateString', 'IsoTimeString', 'IsoDatetimeString',
+}
+# Field names that break the generated class itself: the instance argument of generated __init__ methods
+# and public attributes of pydantic's BaseModel (as 'schema' above)
+reserved_field_names_set = {
+    'self', 'Config', 'construct', 'copy', 'from_orm', 'json', 'parse_file', 'parse_obj', 'parse_raw',
+    'schema_json', 'update_forward_refs', 'validate',
+}
+blacklist_words = frozenset(keywords_set | builtins_set | other_common_names_set
+                            | generated_imports_set | reserved_field_names_set)
 ones = ['', 'one', 'two', 'three', 'four', 'five', 'six', 'seven', 'eight', 'nine']
 
 
